@@ -248,3 +248,37 @@ def probe_prices(spec):
         o['injections'].append({'k': k, 'step': int(t), 'node': str(node), 'd': d,
                                 'value': None if isinstance(r, str) else float(r.value), 'status': r if isinstance(r, str) else 'optimal'})
     return o
+
+
+# ------------------------------------------------------------------ stand-alone asset problems
+def probe_assets(spec):
+    """every asset of the spec set up on its own (fresh objects per asset)"""
+    o = {'status': 'ok', 'assets': []}
+    tz = spec['grid'].get('tz')
+    for a in spec['assets']:
+        r = {'name': a['name'], 'kind': a['kind']}
+        try:
+            pool = {}
+            obj = mk_asset(a, pool, tz)
+            tg = mk_grid(spec['grid'])
+            op = obj.setup_optim_problem(mk_prices(spec), tg)
+            r['status'] = 'ok'
+            r['problem'] = dump_problem(op)
+            r['T'] = int(tg.T)
+            rs = np.random.RandomState(seed_of(spec, 'a' + a['name']))
+            xr = random_x(op, rs)
+            r['xr'] = [float(v) for v in xr]
+            try:
+                r['dcf'] = [float(v) for v in obj.dcf(op, FakeResults(xr))]
+            except Exception as e:
+                r['dcf_error'] = repr(e)[:200]
+            if a['kind'] == 'Storage':
+                try:
+                    r['fill_level'] = [float(v) for v in obj.fill_level(op, FakeResults(xr))]
+                except Exception as e:
+                    r['fill_level_error'] = repr(e)[:200]
+        except Exception as e:
+            r['status'] = 'setup_error'
+            r['error'] = repr(e)[:300]
+        o['assets'].append(r)
+    return o
